@@ -60,6 +60,24 @@ fn iana() -> Vec<(TYPE, u16, &'static str)> {
     ]
 }
 
+/// The IANA RR TYPE registry (mnemonic, number), including types this library does not
+/// implement today: a library that grows a mnemonic must give it this number.
+pub fn iana_registry() -> &'static [(&'static str, u16)] {
+    &[
+        ("A", 1), ("NS", 2), ("MD", 3), ("MF", 4), ("CNAME", 5), ("SOA", 6), ("MB", 7), ("MG", 8), ("MR", 9), ("NULL", 10), ("WKS", 11), ("PTR", 12), ("HINFO", 13), ("MINFO", 14), ("MX", 15), ("TXT", 16), ("RP", 17), ("AFSDB", 18),
+        ("X25", 19), ("ISDN", 20), ("RT", 21), ("NSAP", 22), ("NSAPPTR", 23), ("SIG", 24), ("KEY", 25), ("PX", 26), ("GPOS", 27), ("AAAA", 28), ("LOC", 29), ("NXT", 30), ("EID", 31), ("NIMLOC", 32), ("SRV", 33), ("ATMA", 34),
+        ("NAPTR", 35), ("KX", 36), ("CERT", 37), ("A6", 38), ("DNAME", 39), ("SINK", 40), ("OPT", 41), ("APL", 42), ("DS", 43), ("SSHFP", 44), ("IPSECKEY", 45), ("RRSIG", 46), ("NSEC", 47), ("DNSKEY", 48), ("DHCID", 49),
+        ("NSEC3", 50), ("NSEC3PARAM", 51), ("TLSA", 52), ("SMIMEA", 53), ("HIP", 55), ("NINFO", 56), ("RKEY", 57), ("TALINK", 58), ("CDS", 59), ("CDNSKEY", 60), ("OPENPGPKEY", 61), ("CSYNC", 62), ("ZONEMD", 63), ("SVCB", 64),
+        ("HTTPS", 65), ("SPF", 99), ("UINFO", 100), ("UID", 101), ("GID", 102), ("UNSPEC", 103), ("NID", 104), ("L32", 105), ("L64", 106), ("LP", 107), ("EUI48", 108), ("EUI64", 109), ("NXNAME", 128), ("TKEY", 249), ("TSIG", 250),
+        ("IXFR", 251), ("AXFR", 252), ("MAILB", 253), ("MAILA", 254), ("ANY", 255), ("URI", 256), ("CAA", 257), ("AVC", 258), ("DOA", 259), ("AMTRELAY", 260), ("RESINFO", 261), ("WALLET", 262), ("CLA", 263), ("IPN", 264),
+        ("TA", 32768), ("DLV", 32769),
+    ]
+}
+
+fn norm_mnemonic(s: &str) -> String {
+    s.chars().filter(|c| c.is_ascii_alphanumeric()).map(|c| c.to_ascii_uppercase()).collect()
+}
+
 pub fn check_code(c: u16) -> Vec<Finding> {
     let case = json!({"kind": "code", "code": c});
     let table = iana();
@@ -86,6 +104,19 @@ pub fn check_code(c: u16) -> Vec<Finding> {
                 // two codes sharing one variant would fail the round trip for one of them
                 if t != TYPE::Unknown(c) && u16::from(t) != c {
                     bad.push(("type-alias".into(), format!("unsupported code {} aliased to {:?}", c, t)));
+                }
+                if t != TYPE::Unknown(c) {
+                    // a mnemonic the library has that this harness' table lacks: its name (as Debug
+                    // prints the variant) must be the IANA mnemonic of exactly this number
+                    let name = norm_mnemonic(&format!("{:?}", t));
+                    let reg = iana_registry();
+                    if let Some((_, n)) = reg.iter().find(|(m, _)| norm_mnemonic(m) == name) {
+                        if *n != c {
+                            bad.push(("mnemonic-number".into(), format!("TYPE::{:?} stands for code {}, IANA assigns {} the number {}", t, c, name, n)));
+                        }
+                    } else if let Some((m, _)) = reg.iter().find(|(_, n)| *n == c) {
+                        bad.push(("mnemonic-number".into(), format!("code {} is {} per IANA but the library calls it {:?}", c, m, t)));
+                    }
                 }
             }
         }
